@@ -996,6 +996,50 @@ func (x *c03Env) ruleE() {
 		})
 		return nAssign == 1 && fromEOF
 	}
+	// `seq, ok := <-parser.Next()`: ok is false exactly when the parser has closed its channel, which it does after
+	// it has emitted EOF (whoever waited for the parser may have taken that EOF): the end of input, like EOF itself
+	isRecvOk := func(e ast.Expr) bool {
+		id, ok := e.(*ast.Ident)
+		if !ok {
+			return false
+		}
+		obj := x.info.ObjectOf(id)
+		found := false
+		ast.Inspect(x.loop.body, func(n ast.Node) bool {
+			cc, ok := n.(*ast.CommClause)
+			if !ok || cc.Comm == nil {
+				return true
+			}
+			as, ok := cc.Comm.(*ast.AssignStmt)
+			if !ok || len(as.Lhs) != 2 || len(as.Rhs) != 1 {
+				return true
+			}
+			u, ok := unparen(as.Rhs[0]).(*ast.UnaryExpr)
+			if !ok || u.Op != token.ARROW || !containsNode(u.X, func(m ast.Node) bool { return isCallTo(x.info, m, "ansi.Parser.Next") }) {
+				return true
+			}
+			if lid, ok := as.Lhs[1].(*ast.Ident); ok && x.info.ObjectOf(lid) == obj && obj != nil {
+				found = true
+			}
+			return true
+		})
+		if !found {
+			return false
+		}
+		// never assigned again
+		n := 0
+		ast.Inspect(x.loop.body, func(m ast.Node) bool {
+			if as, ok := m.(*ast.AssignStmt); ok {
+				for _, l := range as.Lhs {
+					if lid, ok := l.(*ast.Ident); ok && x.info.ObjectOf(lid) == obj {
+						n++
+					}
+				}
+			}
+			return true
+		})
+		return n == 1
+	}
 	classify := func(n ast.Node) string {
 		// syntactic context
 		var child ast.Node = n
@@ -1020,6 +1064,12 @@ func (x *c03Env) ruleE() {
 				if t.Else != nil && child == ast.Node(t.Else) && x.impliesBool(t.Cond, false, isEOFOk) {
 					return "EOF test"
 				}
+				if child == ast.Node(t.Body) && x.impliesFalse(t.Cond, true, isRecvOk) {
+					return "closed-channel test (the parser closes its channel after EOF)"
+				}
+				if t.Else != nil && child == ast.Node(t.Else) && x.impliesFalse(t.Cond, false, isRecvOk) {
+					return "closed-channel test (the parser closes its channel after EOF)"
+				}
 			case *ast.CommClause:
 				if t.Comm != nil {
 					from := ""
@@ -1040,6 +1090,9 @@ func (x *c03Env) ruleE() {
 			for _, gd := range lg.Guards(loc) {
 				if gd.Cond.Tag == nil && gd.Cond.Alts == nil && x.impliesBool(gd.Cond.Expr, gd.Pol, isEOFOk) {
 					return "EOF test"
+				}
+				if gd.Cond.Tag == nil && gd.Cond.Alts == nil && x.impliesFalse(gd.Cond.Expr, gd.Pol, isRecvOk) {
+					return "closed-channel test (the parser closes its channel after EOF)"
 				}
 			}
 		}
@@ -1248,28 +1301,38 @@ func (x *c03Env) guardedByReqCursorPos(g *FG, loc Loc, reqPos *types.Var) bool {
 }
 
 // impliesBool: cond having truth value pol implies that the boolean atom (recognised by isAtom) is true.
+// impliesFalse: e having the value pol implies that some atom is FALSE.
+func (x *c03Env) impliesFalse(e ast.Expr, pol bool, isAtom func(ast.Expr) bool) bool {
+	return x.impliesBoolV(e, pol, isAtom, false)
+}
+
 func (x *c03Env) impliesBool(e ast.Expr, pol bool, isAtom func(ast.Expr) bool) bool {
+	return x.impliesBoolV(e, pol, isAtom, true)
+}
+
+// impliesBoolV: e having the value pol implies that some atom has the value want.
+func (x *c03Env) impliesBoolV(e ast.Expr, pol bool, isAtom func(ast.Expr) bool, want bool) bool {
 	e = unparen(e)
 	if isAtom(e) {
-		return pol
+		return pol == want
 	}
 	switch t := e.(type) {
 	case *ast.UnaryExpr:
 		if t.Op == token.NOT {
-			return x.impliesBool(t.X, !pol, isAtom)
+			return x.impliesBoolV(t.X, !pol, isAtom, want)
 		}
 	case *ast.BinaryExpr:
 		switch t.Op {
 		case token.LAND:
-			return pol && (x.impliesBool(t.X, true, isAtom) || x.impliesBool(t.Y, true, isAtom))
+			return pol && (x.impliesBoolV(t.X, true, isAtom, want) || x.impliesBoolV(t.Y, true, isAtom, want))
 		case token.LOR:
-			return !pol && (x.impliesBool(t.X, false, isAtom) || x.impliesBool(t.Y, false, isAtom))
+			return !pol && (x.impliesBoolV(t.X, false, isAtom, want) || x.impliesBoolV(t.Y, false, isAtom, want))
 		case token.EQL, token.NEQ:
 			for _, pr := range [][2]ast.Expr{{t.X, t.Y}, {t.Y, t.X}} {
 				if tv, ok := x.info.Types[pr[1]]; ok && tv.Value != nil && tv.Value.Kind() == constant.Bool {
 					val := constant.BoolVal(tv.Value)
 					// (atomExpr == val) has value pol  =>  atomExpr has value (val == (eq == pol))
-					return x.impliesBool(pr[0], val == ((t.Op == token.EQL) == pol), isAtom)
+					return x.impliesBoolV(pr[0], val == ((t.Op == token.EQL) == pol), isAtom, want)
 				}
 			}
 		}
